@@ -107,6 +107,25 @@ pub fn run_world(args: &Args) -> (u64, u64) {
             for bit in bits {
                 c.world_server(exp, user, key, flip20(&proof, bit), cs, true, Some(*sseed));
             }
+            // differences in two or three bytes with the SAME mask (positions 8, 16, 4, 1 ... apart), swapped bytes,
+            // a reversed proof: comparisons that fold the differences of several bytes or lanes must not let them cancel
+            {
+                let m: u8 = 1 << (n % 8);
+                let mut variants: Vec<[u8; 20]> = vec![];
+                for (x, y) in [(n % 8, n % 8 + 8), (n % 4, n % 4 + 16), (8 + n % 4, 16 + n % 4), (n % 16, n % 16 + 4), (n % 19, n % 19 + 1), (0, 19)] {
+                    let mut t = proof; t[x] ^= m; t[y] ^= m; variants.push(t);
+                    let mut t = proof; t[x] ^= 0xFF; t[y] ^= 0xFF; variants.push(t);
+                    let mut t = proof; t.swap(x, y); variants.push(t);
+                }
+                let mut t = proof; t[n % 4] ^= m; t[n % 4 + 8] ^= m; t[n % 4 + 16] ^= m; variants.push(t);
+                let mut t = proof; t.reverse(); variants.push(t);
+                let lim = if thorough || n % 3 == 0 { variants.len() } else { 6 };
+                for t in variants.into_iter().take(lim) {
+                    if t != proof {
+                        c.world_server(exp, user, key, t, cs, true, Some(*sseed));
+                    }
+                }
+            }
             let kbytes: Vec<usize> = if thorough || n % 9 == 1 { (0..40).collect() } else { vec![n % 40] };
             for kb in kbytes {
                 let mut k2 = key;
@@ -306,6 +325,10 @@ pub fn run_stream(args: &Args) -> (u64, u64) {
         let Some((mut cl2, mut sv2)) = pair(&mut c, exp, "OTHER", rnd40(&mut rng), None, rng.gen()) else { continue };
         let small: [u32; 8] = [0, 1, 2, 3, 4, 5, 6, 0x100];
         for step in 0..(if thorough { 40 } else { 24 }) {
+            if round % 2 == 1 {
+                // unrelated calls into other modules on this thread (SRP logins, PIN, integrity, other header objects)
+                crate::util::noise(step + round);
+            }
             let size = if step < 8 { small[step] } else if exp == "wrath" && step % 5 == 0 { rng.gen_range(0x8000..=0x7FFFFF) } else { rng.gen_range(0..=0x7FFF) };
             let op = OPCODES[(step + round) % OPCODES.len()];
             let via = if step % 2 == 0 { "combined" } else { "half" };
@@ -341,8 +364,28 @@ pub fn run_stream(args: &Args) -> (u64, u64) {
                     a4.copy_from_slice(&h);
                     c.dec_server_hdr(&mut cl, a4, via);
                 } else {
-                    let sc = frag(&mut rng, &h);
-                    c.read_hdr(&mut cl, "server", &sc, via);
+                    // sometimes the reader first FAILS inside the header (end of stream or an error after j bytes): the
+                    // decrypter is where it was, and the header is then read in full; a Wrath long header that failed
+                    // exactly at its fifth byte is completed with that byte
+                    let mut done = false;
+                    if step % 3 == 1 {
+                        let j = 1 + (step + round) % (h.len() - 1);
+                        let mut part = vec![Step::Data(h[..j].to_vec())];
+                        if step % 2 == 1 { part.push(Step::Err(ErrorKind::WouldBlock)); }
+                        if !(exp == "wrath" && h.len() == 5 && j > 4) {
+                            let res = c.read_hdr(&mut cl, "server", &part, via);
+                            if exp == "wrath" && h.len() == 5 && j == 4 && res["kind"] == "err" {
+                                c.sent = Some((size, op as u32));
+                                c.wrath_complete(&mut cl, h[4], via);
+                                done = true;
+                            }
+                        }
+                        c.sent = Some((size, op as u32));
+                    }
+                    if !done {
+                        let sc = frag(&mut rng, &h);
+                        c.read_hdr(&mut cl, "server", &sc, via);
+                    }
                 }
             }
             // client -> server (small sizes included: nothing about a header's VALUE is checked by the cipher)
@@ -354,6 +397,13 @@ pub fn run_stream(args: &Args) -> (u64, u64) {
                     a6.copy_from_slice(&h);
                     c.dec_client_hdr(&mut sv, a6, via);
                 } else {
+                    if step % 3 == 2 {
+                        let j = 1 + (step + round) % 5;
+                        let mut part = vec![Step::Data(h[..j].to_vec())];
+                        if step % 2 == 0 { part.push(Step::Err(ErrorKind::TimedOut)); }
+                        c.read_hdr(&mut sv, "client", &part, via);
+                        c.sent = Some((size & 0xFFFF, op32));
+                    }
                     let sc = frag(&mut rng, &h);
                     c.read_hdr(&mut sv, "client", &sc, via);
                 }
@@ -426,6 +476,44 @@ pub fn run_stream(args: &Args) -> (u64, u64) {
                     c.drop_conn(&cl);
                     c.drop_conn(&sv);
                 }
+            }
+        }
+    }
+    // session keys whose DERIVED cipher key (HMAC-SHA1 under the protocol's direction constants) starts with a notable
+    // byte pair - 03 FF (the classic weak RC4 key form), 00 00, FF FF, 00 01: found by search (input selection only;
+    // the specification derives the key itself and judges every byte)
+    if exp != "vanilla" {
+        fn hmac_sha1(key: &[u8], msg: &[u8]) -> [u8; 20] {
+            let mut k = [0u8; 64];
+            k[..key.len()].copy_from_slice(key);
+            let ipad: Vec<u8> = k.iter().map(|x| x ^ 0x36).collect();
+            let opad: Vec<u8> = k.iter().map(|x| x ^ 0x5c).collect();
+            let inner: [u8; 20] = Sha1::new().chain_update(&ipad).chain_update(msg).finalize().into();
+            Sha1::new().chain_update(&opad).chain_update(inner).finalize().into()
+        }
+        let consts: Vec<[u8; 16]> = if exp == "wrath" {
+            vec![[0xC2, 0xB3, 0x72, 0x3C, 0xC6, 0xAE, 0xD9, 0xB5, 0x34, 0x3C, 0x53, 0xEE, 0x2F, 0x43, 0x67, 0xCE],
+                 [0xCC, 0x98, 0xAE, 0x04, 0xE8, 0x97, 0xEA, 0xCA, 0x12, 0xDD, 0xC0, 0x93, 0x42, 0x91, 0x53, 0x57]]
+        } else {
+            vec![[0x38, 0xA7, 0x83, 0x15, 0xF8, 0x92, 0x25, 0x30, 0x71, 0x98, 0x67, 0xB1, 0x8C, 0x04, 0xE2, 0xAA]]
+        };
+        let pats: Vec<[u8; 2]> = if thorough { vec![[3, 255], [0, 0], [255, 255], [0, 1], [1, 0], [255, 0], [3, 253], [4, 255]] } else { vec![[3, 255], [0, 0], [255, 255]] };
+        c.reset("stream-derived-key-patterns");
+        for cst in &consts {
+            for pat in &pats {
+                let mut k = rnd40(&mut rng);
+                let mut found = false;
+                for t in 0..400_000u32 {
+                    k[0..4].copy_from_slice(&t.to_le_bytes());
+                    let d = hmac_sha1(cst, &k);
+                    if d[0] == pat[0] && d[1] == pat[1] { found = true; break; }
+                }
+                if !found { continue; }
+                let Some((mut cl, mut sv)) = pair(&mut c, exp, "DERIVED", k, None, 5) else { continue };
+                stream_dir(&mut c, &mut rng, &mut cl, &mut sv, 40, false);
+                stream_dir(&mut c, &mut rng, &mut sv, &mut cl, 40, false);
+                c.drop_conn(&cl);
+                c.drop_conn(&sv);
             }
         }
     }
@@ -601,6 +689,15 @@ fn wrath_deliver(c: &mut C, rng: &mut StdRng, cl: &mut Conn, bytes: &[u8], path:
                         c.wrath_complete(cl, bytes[4], via);
                     }
                 }
+            }
+        }
+        2 if bytes.len() == 5 && path % 2 == 0 => {
+            // the read-based call fails exactly between the fourth and the fifth byte; the header is then completed
+            // with decrypt_large_server_header
+            let res = c.read_hdr(cl, "server", &[Step::Data(bytes[..4].to_vec()), Step::Err(ErrorKind::WouldBlock)], via);
+            c.sent = if sent.0 <= 0x7F_FFFF { Some((sent.0, sent.1 as u32)) } else { None };
+            if res["kind"] == "err" {
+                c.wrath_complete(cl, bytes[4], via);
             }
         }
         _ => {
@@ -1038,8 +1135,14 @@ pub fn run_hdrio(args: &Args) -> (u64, u64) {
         let wide = exp == "wrath";
         let sizes: Vec<u32> = if wide { vec![5, 0x1_0005, 5, 0x8005, 0x2_0005, 0x7F_0005, 0x0105, 5, 0x7FFF, 0x1_7FFF, 0x8000, 0x1_8000] }
                               else { vec![5, 0x8005, 5, 0x0105, 0x0500, 0x7FFF, 0xFFFF, 0x00FF, 0xFF00, 5] };
-        for (k, size) in sizes.iter().enumerate() {
-            for op in [0x1EEu16, 0x1EE, 0xEE01, 0x01EE ^ 0x100] {
+        // two nestings: the same opcode over all related sizes, then the same size over related opcodes
+        let ops = [0x1EEu16, 0x1EE, 0xEE01, 0x01EE ^ 0x100];
+        let mut plan: Vec<(usize, u32, u16)> = vec![];
+        for op in ops { for (k, size) in sizes.iter().enumerate() { plan.push((k, *size, op)); } }
+        for (k, size) in sizes.iter().enumerate() { for op in ops { plan.push((k, *size, op)); } }
+        {
+            for (k, size, op) in plan {
+                let size = &size;
                 let via = if k % 2 == 0 { "combined" } else { "half" };
                 let ct = if (k + op as usize) % 3 == 0 {
                     let before = sv.enc_clone();
@@ -1057,6 +1160,37 @@ pub fn run_hdrio(args: &Args) -> (u64, u64) {
                 if let Some(h) = c.enc_client_hdr(&mut cl, csize, op32, via) {
                     c.sent = Some((csize as u32, op32));
                     c.read_hdr(&mut sv, "client", &[Step::Data(h)], via);
+                }
+                c.sent = None;
+            }
+        }
+    }
+    // Wrath client, entry points MIXED inside one long header: the 4-byte attempt (or a read that failed exactly at the
+    // fifth byte), then the fifth byte through the RAW decrypt, then the next header through the Read wrapper or the
+    // attempt - the wrapper reads a whole header, whatever happened before
+    {
+        c.reset("hdrio-mixed-entrypoints");
+        if let Some((mut cl, mut sv)) = pair(&mut c, "wrath", "MIXED", rnd40(&mut rng), None, 13) {
+            for k in 0..8u32 {
+                let via = if k % 2 == 0 { "combined" } else { "half" };
+                let Some(h1) = c.enc_server_hdr(&mut sv, 0x1_2345 + k, 0x1EE, via) else { break };
+                let mut a4 = [0u8; 4];
+                a4.copy_from_slice(&h1[..4]);
+                if k % 4 < 2 {
+                    c.wrath_attempt(&mut cl, a4, via);
+                } else {
+                    c.read_hdr(&mut cl, "server", &[Step::Data(h1[..4].to_vec()), Step::Err(ErrorKind::WouldBlock)], via);
+                }
+                c.call(&mut cl, "dec", &h1[4..5], via);
+                let size2 = if k % 2 == 0 { 0x10 + k } else { 0x2_0000 + k };
+                let Some(h2) = c.enc_server_hdr(&mut sv, size2, 0x0304, via) else { break };
+                c.sent = Some((size2, 0x0304));
+                if k % 3 == 2 {
+                    let mut b4 = [0u8; 4];
+                    b4.copy_from_slice(&h2[..4]);
+                    if let Some(None) = c.wrath_attempt(&mut cl, b4, via) { c.wrath_complete(&mut cl, h2[4], via); }
+                } else {
+                    c.read_hdr(&mut cl, "server", &[Step::Data(h2)], via);
                 }
                 c.sent = None;
             }
@@ -1210,6 +1344,44 @@ pub fn run_halves(args: &Args) -> (u64, u64) {
         c.call(&mut a, "enc", &w, "combined");
         c.call(&mut a, "dec", &w, "combined");
         if i % 10 == 9 { c.reset("unsplit"); }
+    }
+    // different keys that COLLIDE under common 32-bit fingerprints (FNV-1a, CRC-32, djb2, sdbm, a sum of 32-bit words):
+    // found by a birthday search over the last four key bytes; re-joining must still be refused - it depends on the keys
+    {
+        fn fnv1a(k: &[u8]) -> u32 { k.iter().fold(0x811C_9DC5u32, |h, b| (h ^ *b as u32).wrapping_mul(0x0100_0193)) }
+        fn crc32(k: &[u8]) -> u32 {
+            let mut c = 0xFFFF_FFFFu32;
+            for b in k { c ^= *b as u32; for _ in 0..8 { c = if c & 1 == 1 { (c >> 1) ^ 0xEDB8_8320 } else { c >> 1 }; } }
+            !c
+        }
+        fn djb2(k: &[u8]) -> u32 { k.iter().fold(5381u32, |h, b| h.wrapping_mul(33).wrapping_add(*b as u32)) }
+        fn sdbm(k: &[u8]) -> u32 { k.iter().fold(0u32, |h, b| (*b as u32).wrapping_add(h << 6).wrapping_add(h << 16).wrapping_sub(h)) }
+        fn wsum(k: &[u8]) -> u32 { k.chunks(4).fold(0u32, |h, w| h.rotate_left(5).wrapping_add(u32::from_le_bytes([w[0], w[1], w[2], w[3]]))) }
+        let fns: [(&str, fn(&[u8]) -> u32); 5] = [("fnv1a", fnv1a), ("crc32", crc32), ("djb2", djb2), ("sdbm", sdbm), ("wsum", wsum)];
+        c.reset("unsplit-fingerprint-collisions");
+        for (_name, f) in fns {
+            let mut k = key;
+            let mut seen: std::collections::HashMap<u32, u32> = std::collections::HashMap::new();
+            let mut hit: Option<(u32, u32)> = None;
+            for t in 0..400_000u32 {
+                let v = t.wrapping_mul(0x9E37_79B1);
+                k[36..40].copy_from_slice(&v.to_le_bytes());
+                if let Some(prev) = seen.insert(f(&k), v) {
+                    if prev != v { hit = Some((prev, v)); break; }
+                }
+            }
+            let Some((v1, v2)) = hit else { continue };
+            let (mut k1, mut k2) = (key, key);
+            k1[36..40].copy_from_slice(&v1.to_le_bytes());
+            k2[36..40].copy_from_slice(&v2.to_le_bytes());
+            let Some((mut a, _)) = pair(&mut c, "vanilla", "UNSPLIT", k1, None, 1) else { continue };
+            let Some((mut b2, _)) = pair(&mut c, "vanilla", "UNSPLIT", k2, None, 1) else { continue };
+            c.split(&mut a);
+            c.split(&mut b2);
+            let State::Parts(_, De::V(d_other)) = b2.st.clone() else { unreachable!() };
+            c.unsplit(&mut a, Some((b2.hd, d_other)));
+            c.unsplit(&mut a, None);
+        }
     }
     // the SAME key in halves of different origin: another object built from the same key and split on its own, and a
     // clone's decrypter - re-joining must succeed (it depends on the key alone) and the joined object carries on
@@ -1529,6 +1701,22 @@ pub fn run_hdradv(args: &Args) -> (u64, u64) {
                 rng.fill_bytes(&mut huge);
                 c.call(&mut cl, "dec", &huge, via);
                 c.call(&mut sv, "dec", &huge, via);
+                // ... and in three chunks of 30 000 (each below 2^16, their sum above), and in 300 single bytes
+                for _ in 0..3 {
+                    c.call(&mut cl, "dec", &huge[..30_000], via);
+                    c.call(&mut sv, "dec", &huge[..30_000], via);
+                    c.call(&mut cl, "enc", &huge[..30_000], via);
+                    c.call(&mut sv, "enc", &huge[..30_000], via);
+                }
+                for k in 0..300usize {
+                    c.call(&mut cl, "dec", &huge[k..k + 1], via);
+                    c.call(&mut sv, "dec", &huge[k..k + 1], via);
+                }
+                // ... and in 70 000 calls of one byte (more calls than a 16-bit counter holds)
+                for d in ["dec", "enc"] {
+                    c.bulk_calls(&mut cl, d, 70_000, via);
+                    c.bulk_calls(&mut sv, d, 70_000, via);
+                }
                 rng.fill_bytes(&mut g6);
                 c.dec_client_hdr(&mut sv, g6, via);
                 c.call(&mut cl, "dec", &huge[..9], via);
